@@ -2,19 +2,27 @@
 (* Programs for PoolHB.tla (C10); program language: see MCPool.tla / ThreadPool.tla *)
 EXTENDS PoolHB
 O(op, a, b) == [op |-> op, a |-> a, b |-> b]
-\* 1 worker: force-queued, inline-or-queued, ring fast path, central-queue bulk; destructor joins / drains
-P_hb1 == [main |-> <<O("new", 1, 0), O("fq", 1, 0), O("sched", 2, 0), O("rbulk", 3, 1), O("bulk", 4, 1), O("del", 0, 0)>>]
-\* placed scheduling from a parked 2-worker pool (claim + steal ring + re-wake, fallback to the central queue)
-P_hb2 == [main |-> <<O("new", 2, 0), O("idle", 0, 0), O("pfq", 1, 0), O("placed", 2, 0), O("del", 0, 0)>>]
-\* an external submitter racing a growing resize: new PoolWakeState, grown ring / steal arenas
-P_hb3 == [main |-> <<O("new", 1, 0), O("resize", 2, 0), O("sync", 0, 0), O("del", 0, 0)>>,
-          p2 |-> <<O("up", 0, 0), O("fq", 1, 0), O("rbulk", 2, 2)>>]
-\* the same with a placed submission (claimed sleeper of the new generation -> grown steal arena)
-P_hb4 == [main |-> <<O("new", 1, 0), O("resize", 2, 0), O("sync", 0, 0), O("del", 0, 0)>>,
+\* 1 worker: force-queued + inline-or-queued (Mult = 0: the second submission runs inline while the first is pending)
+P_hb1 == [main |-> <<O("new", 1, 0), O("fq", 1, 0), O("sched", 2, 0), O("del", 0, 0)>>]
+\* 1 worker: ring fast path + central-queue bulk; destructor joins / drains
+P_hb2 == [main |-> <<O("new", 1, 0), O("rbulk", 1, 1), O("bulk", 2, 1), O("del", 0, 0)>>]
+\* placed scheduling into a parked pool (claim + steal ring + re-wake), then a placed submission that may fall back
+P_hb3 == [main |-> <<O("new", 1, 0), O("idle", 0, 0), O("pfq", 1, 0), O("placed", 2, 0), O("del", 0, 0)>>]
+\* an external submitter racing a growing resize (0 -> 1 workers): first PoolWakeState, grown ring / steal arenas;
+\* the submitter runs inline (numThreads_ = 0), or enqueues / pushes to the new ring and wakes through the new wake state
+P_hb4 == [main |-> <<O("new", 0, 0), O("resize", 1, 0), O("sync", 0, 0), O("del", 0, 0)>>,
+          p2 |-> <<O("up", 0, 0), O("fq", 1, 0), O("rbulk", 2, 1)>>]
+\* the same with a placed submission (claimed sleeper of the new generation -> steal ring of the grown arena)
+P_hb5 == [main |-> <<O("new", 0, 0), O("resize", 1, 0), O("sync", 0, 0), O("del", 0, 0)>>,
           p2 |-> <<O("up", 0, 0), O("pfq", 1, 0)>>]
-\* batched ring path with overflow + cascade-wrapped ring tasks (GS = 1: two wake groups)
-P_hb5 == [main |-> <<O("new", 2, 0), O("idle", 0, 0), O("rbulk", 1, 2), O("del", 0, 0)>>]
-\* setSignalingWake (enableEpochWaiter_ store between two resizes) racing a submitter
-P_hb6 == [main |-> <<O("new", 1, 0), O("wake", 0, 0), O("sync", 0, 0), O("del", 0, 0)>>,
+\* setSignalingWake (stop, enableEpochWaiter_ store, restart with a second PoolWakeState) racing a submitter
+P_hb6 == [main |-> <<O("new", 1, 0), O("wake", 1, 0), O("sync", 0, 0), O("del", 0, 0)>>,
           p2 |-> <<O("up", 0, 0), O("fq", 1, 0)>>]
+\* 2 workers, 2 wake groups (GS = 1): ring fast path with cascade-wrapped tasks out of a parked pool
+P_hb7 == [main |-> <<O("new", 2, 0), O("idle", 0, 0), O("rbulk", 1, 2), O("del", 0, 0)>>]
+\* 2 workers with one steal ring each (SS = 1), one wake group: placed submission into a parked pool; the kernel may
+\* release the other waiter; the task waits in the claimed worker's steal ring (re-wake / destructor drain).
+\* (TpWkCrossSteal itself is not reached: a worker probes other steal rings only after a ring pop made it prefer rings;
+\*  the program that does that - new 2, rbulk 1 2, idle, pfq 3, del - has > 10^7 states)
+P_hb8 == [main |-> <<O("new", 2, 0), O("idle", 0, 0), O("pfq", 1, 0), O("del", 0, 0)>>]
 ==========================================================================
